@@ -801,9 +801,127 @@ fn dwarf_case(case: &Value) -> Value {
     json!({"loaded": loaded, "views": views, "probes": pout})
 }
 
+// --------------------------------------------------------- DWARF package
+/// Load the package under reader kind `R`, ask for every unit through the four public
+/// paths and report the section views handed back relative to the package sections.
+fn dwp_kind<'a, R: Reader<Offset = usize>>(
+    case: &Value,
+    secs: &'a Table,
+    make: impl Fn(&'a [u8]) -> (R, usize),
+) -> Value {
+    static EMPTY: [u8; 0] = [];
+    let roots: Vec<(&str, R, usize, usize)> = secs
+        .iter()
+        .map(|(n, d)| {
+            let (r, b) = make(d);
+            (n.as_str(), r, b, d.len())
+        })
+        .collect();
+    let get = |id: gimli::SectionId| -> R {
+        roots.iter().find(|x| x.0 == id.name()).map(|x| x.1.clone()).unwrap_or_else(|| make(&EMPTY).0)
+    };
+    let pkg = match gimli::DwarfPackage::load(|id| -> Result<R, gimli::Error> { Ok(get(id)) }, make(&EMPTY).0) {
+        Ok(p) => p,
+        Err(e) => return json!({"load_err": err_name(&e)}),
+    };
+    let parent: gimli::Dwarf<R> = gimli::Dwarf::load(|_| -> Result<R, gimli::Error> { Ok(make(&EMPTY).0) }).unwrap();
+    let obs_unit = |d: &gimli::Dwarf<R>, exp: &Value| -> Value {
+        let mut views = Vec::new();
+        for (sid, r) in sections_of(d) {
+            let root = roots.iter().find(|x| x.0 == sid.name());
+            let (bytes, ptr, borrowed) = match (r.to_slice(), root) {
+                (Ok(Cow::Borrowed(sl)), Some(x)) => (sl.to_vec(), rel(sl.as_ptr() as usize, x.2, x.3), true),
+                (Ok(Cow::Borrowed(sl)), None) => (sl.to_vec(), -3, true),
+                (Ok(Cow::Owned(v)), _) => (v, -1, false),
+                (Err(_), _) => (Vec::new(), -2, false),
+            };
+            views.push(json!({"sec": sid.name(), "bytes": bytes_json(&bytes), "ptr": ptr, "borrowed": borrowed}));
+        }
+        let mut probes = Vec::new();
+        for p in exp["probes"].as_array().cloned().unwrap_or_default() {
+            let sec = p["sec"].as_str().unwrap_or("");
+            let at = p["at"].as_u64().unwrap_or(0) as usize;
+            let res = match roots.iter().find(|x| x.0 == sec) {
+                Some(x) => {
+                    let mut c = x.1.clone();
+                    if c.skip(at).is_ok() {
+                        match d.lookup_offset_id(c.offset_id()) {
+                            Some((sf, sid, off)) => json!([sf, sid.name(), off]),
+                            None => json!([]),
+                        }
+                    } else {
+                        json!("bad-probe")
+                    }
+                }
+                None => json!("no-section"),
+            };
+            probes.push(json!({"sec": sec, "at": at, "res": res}));
+        }
+        json!({"ok": true, "views": views, "probes": probes})
+    };
+    let mut units = Vec::new();
+    for u in case["units"].as_array().cloned().unwrap_or_default() {
+        let row = u["row"].as_u64().unwrap_or(0) as u32;
+        let id = unbv(&u["id"]);
+        let exp = &u["exp"];
+        let res = |r: gimli::Result<gimli::Dwarf<R>>| match r {
+            Ok(d) => obs_unit(&d, exp),
+            Err(e) => json!({"ok": false, "err": err_name(&e)}),
+        };
+        let opt = |r: gimli::Result<Option<gimli::Dwarf<R>>>| match r {
+            Ok(Some(d)) => obs_unit(&d, exp),
+            Ok(None) => json!({"ok": "none"}),
+            Err(e) => json!({"ok": false, "err": err_name(&e)}),
+        };
+        units.push(json!({"row": row,
+            "cu_sections": res(pkg.cu_sections(row, &parent)),
+            "find_cu": opt(pkg.find_cu(gimli::DwoId(id), &parent)),
+            "tu_sections": res(pkg.tu_sections(row, &parent)),
+            "find_tu": opt(pkg.find_tu(gimli::DebugTypeSignature(id), &parent))}));
+    }
+    json!({ "units": units })
+}
+
+fn dwp_case(case: &Value) -> Value {
+    let mut secs: Table = table(&case["sections"]);
+    let index = bytes_of(&case["index"]);
+    secs.push((".debug_cu_index".to_string(), index.clone()));
+    secs.push((".debug_tu_index".to_string(), index));
+    let en = RunTimeEndian::Little;
+    let mut m = serde_json::Map::new();
+    m.insert(KINDS[0].into(), dwp_kind(case, &secs, |d| (EndianSlice::new(d, en), d.as_ptr() as usize)));
+    m.insert(KINDS[1].into(), dwp_kind(case, &secs, |d| {
+        let rc: Rc<[u8]> = Rc::from(d);
+        let b = rc.as_ptr() as usize;
+        (EndianReader::new(rc, en), b)
+    }));
+    m.insert(KINDS[2].into(), dwp_kind(case, &secs, |d| {
+        let rc: Arc<[u8]> = Arc::from(d);
+        let b = rc.as_ptr() as usize;
+        (EndianReader::new(rc, en), b)
+    }));
+    m.insert(KINDS[3].into(), dwp_kind(case, &secs, |d| {
+        let sh = Shared(Rc::new(Inner { data: d.to_vec(), freed: Rc::new(Cell::new(0)) }));
+        let b = sh.as_ptr() as usize;
+        (EndianReader::new(sh, en), b)
+    }));
+    m.insert(KINDS[4].into(), dwp_kind(case, &secs, |d| {
+        (RelocateReader::new(EndianSlice::new(d, en), Ident), d.as_ptr() as usize)
+    }));
+    m.insert(KINDS[5].into(), dwp_kind(case, &secs, |d| {
+        let rc: Rc<[u8]> = Rc::from(d);
+        let b = rc.as_ptr() as usize;
+        (RelocateReader::new(EndianReader::new(rc, en), Ident), b)
+    }));
+    Value::Object(m)
+}
+
 fn replay(case: &Value) -> Value {
     if case["sys"] == "dwarf" {
         return dwarf_case(case);
+    }
+    if case["sys"] == "dwp" {
+        return dwp_case(case);
     }
     let data = bytes_of(&case["buf"]);
     let le = case["le"].as_bool().unwrap_or(true);
